@@ -17,6 +17,42 @@ def coq_bytes(s):
     return '[' + '; '.join(str(b) for b in s.encode()) + ']%N'
 
 
+def strip_c(text):
+    """comments removed; `#ifdef ROBSD_VERIF ... #endif` blocks (verif points only) removed; any other preprocessor line raises"""
+    text = re.sub(r'/\*.*?\*/', '', text, flags=re.S)
+    text = re.sub(r'^#ifdef ROBSD_VERIF\n(?:(?!#).*\n)*?#endif\n', '', text, flags=re.M)
+    return text
+
+
+def func_body(src, name):
+    m = re.search(r'^%s\(.*?\n\{\n(.*?)^\}\n' % re.escape(name), src, re.M | re.S)
+    if not m:
+        raise RuntimeError('step.c: function %s not found' % name)
+    body = strip_c(m.group(1))
+    if re.search(r'^\s*#', body, re.M):
+        raise RuntimeError('step.c: %s: preprocessor conditional other than the ROBSD_VERIF points' % name)
+    return body
+
+
+def norm_ws(t):
+    return re.sub(r'\s+', ' ', t).strip()
+
+
+def c_unescape(lit):
+    out, i = [], 0
+    esc = {'n': '\n', 't': '\t', 'r': '\r', '\\': '\\', '"': '"', "'": "'", '0': '\0', 'v': '\v', 'f': '\f', 'a': '\a', 'b': '\b'}
+    while i < len(lit):
+        if lit[i] == '\\':
+            if i + 1 >= len(lit) or lit[i + 1] not in esc:
+                raise RuntimeError('step.c: escape sequence not understood in "%s"' % lit)
+            out.append(esc[lit[i + 1]])
+            i += 2
+        else:
+            out.append(lit[i])
+            i += 1
+    return ''.join(out)
+
+
 def generate(repo):
     src = open(os.path.join(repo, 'step.c')).read()
     m = re.search(r'static const struct field_definition fields\[\] = \{(.*?)\n\};', src, re.S)
@@ -40,18 +76,55 @@ def generate(repo):
     m3 = re.search(r'rv = strtonum\(str, (-?\w+), (\w+), &errstr\);', rs)
     if not m3:
         raise RuntimeError('robsd-step.c: parse_id bounds not found')
-    if not re.search(r'strpbrk\(val, ",\\n\$"\)', src):
-        rejected = ''
+    # --- step_set_keyval: the write-time value check (bda6bfa).  STRUCTURAL: the statements between `val++;` and the
+    # call of step_set_field must be nothing (no check: switches off) or exactly
+    #     fd = field_definition_find_by_name(key);
+    #     if (fd != NULL && fd->fd_type == STRING && (<alternatives joined by ||>)) { warnx(...); return 1; }
+    # whose alternatives are `strpbrk(val, "<chars>") != NULL` and `(val[0] == '\0' && (fd->fd_flags & OPTIONAL) == 0)`.
+    # The switches are read from the alternatives of THAT guarded `return 1`: keeping the token but dropping the effect
+    # (return 0, an empty block, `&& 0`, the test moved after step_set_field) matches neither form and raises.
+    kv = func_body(src, 'step_set_keyval')
+    mk = re.search(r"val\+\+;(.*?)if \(step_set_field\(sf, st, key, val\)\) \{\s*warnx\([^;]*\);\s*error = 1;\s*\}\s*return error;\s*$", kv, re.S)
+    if not mk:
+        raise RuntimeError('step.c: step_set_keyval: `val++;` ... `if (step_set_field(...)) { warnx; error = 1; } return error;` not found')
+    check = norm_ws(mk.group(1))
+    rejected, empty_req = '', 'false'
+    if check != '':
+        mc = re.fullmatch(r'fd = field_definition_find_by_name\(key\); if \(fd != NULL && fd->fd_type == STRING && \((.*)\)\) \{ '
+                          r'warnx\([^;{}]*\); return 1; \}', check)
+        if not mc:
+            raise RuntimeError('step.c: step_set_keyval: value check not understood (expected one guarded `return 1;`): %r' % check[:300])
+        alts = [a.strip() for a in mc.group(1).split(' || ')]
+        seen = set()
+        for a in alts:
+            ms = re.fullmatch(r'strpbrk\(val, "((?:[^"\\]|\\.)*)"\) != NULL', a)
+            if ms and 'strpbrk' not in seen:
+                seen.add('strpbrk')
+                rejected = c_unescape(ms.group(1))
+            elif a == r"(val[0] == '\0' && (fd->fd_flags & OPTIONAL) == 0)" and 'empty' not in seen:
+                seen.add('empty')
+                empty_req = 'true'
+            else:
+                raise RuntimeError('step.c: step_set_keyval: alternative of the value check not understood: %r' % a)
+    rej = '[' + '; '.join(str(b) for b in rejected.encode('latin-1')) + ']%N'
+    # --- steps_write: the result of fclose (33c7519).  STRUCTURAL: between the label `out:` and `buffer_free(bf); return error;`
+    # (verif points removed) there must be exactly `if (fh != NULL) fclose(fh);` (unchecked) or
+    # `if (fh != NULL && fclose(fh) == EOF && !error) { warn(...); error = 1; }` (checked: the guarded statement is `error = 1`).
+    sw = func_body(src, 'steps_write')
+    mo = re.search(r'\bout:(.*?)buffer_free\(bf\);\s*return error;\s*$', sw, re.S)
+    if not mo:
+        raise RuntimeError('step.c: steps_write: `out:` ... `buffer_free(bf); return error;` not found')
+    tail = norm_ws(mo.group(1))
+    if tail == 'if (fh != NULL) fclose(fh);':
+        close_checked = 'false'
+    elif re.fullmatch(r'if \(fh != NULL && fclose\(fh\) == EOF && !error\) \{ warn\([^;{}]*\); error = 1; \}', tail):
+        close_checked = 'true'
     else:
-        rejected = ',\n$'
-    rej = '[' + '; '.join(str(b) for b in rejected.encode()) + ']%N'
-    empty_req = 'true' if re.search(r"val\[0\] == '\\0' && \(fd->fd_flags & OPTIONAL\) == 0", src) else 'false'
-    close_checked = 'true' if re.search(r'fclose\(fh\) == EOF', src) else 'false'
+        raise RuntimeError('step.c: steps_write: statements after `out:` not understood: %r' % tail[:300])
+    if len(re.findall(r'\bfclose\(', sw)) != 1 or len(re.findall(r'\berror = 0\b', sw)) != 1:
+        raise RuntimeError('step.c: steps_write: expected one fclose call and no reset of `error` besides its initialiser')
     # the fwrite call of steps_write and the test of its result
-    mw = re.search(r'int\s+steps_write\(.*?\n\{(.*?)\n\}', src, re.S)
-    if not mw:
-        raise RuntimeError('step.c: steps_write not found')
-    wbody = mw.group(1)
+    wbody = sw
     calls = re.findall(r'(\w+)\s*=\s*fwrite\(([^;]*)\);', wbody)
     if len(calls) != 1 or len(re.findall(r'\bfwrite\(', wbody)) != 1:
         raise RuntimeError('step.c: steps_write: expected exactly one assigned fwrite call')
